@@ -63,6 +63,47 @@ def judge(ctx, E, a, f, GM, w, lats, hs):
     # a^2 - b^2 cancels for small f: the linear eccentricity is conditioned like eps / sqrt(f)
     ctx.le("E = sqrt(a^2 - b^2)", abs(v["E"] - np.sqrt(a * a - b * b)) / a, 2e-15 + (4e-16 / np.sqrt(f) if f > 0 else 0.0), route=r)
     ctx.le("m = w^2 a^2 b / GM", abs(v["m"] - m) / max(m, 1e-300), 1e-14, route=r)
+    # the other derived constants and radii, each against its defining identity (re-evaluated here from a, b, GM, w)
+    more = call(lambda: dict(ar=float(E.aspect_ratio), c=float(E.curvature_polar_radius), R1=float(E.arithmetic_mean_radius), R3=float(E.equivolumetric_sphere_radius),
+                             R2=float(E.authalic_sphere_radius), N0=float(E.vertical_curvature_radius(0.0)), M0=float(E.meridian_curvature_radius(0.0)),
+                             Np=float(E.vertical_curvature_radius(np.pi / 2)), Mp=float(E.meridian_curvature_radius(np.pi / 2)),
+                             N1=float(E.vertical_curvature_radius(0.7)), M1=float(E.meridian_curvature_radius(0.7)), N1n=float(E.vertical_curvature_radius(-0.7)),
+                             J2=float(E.dynamical_form_factor), C20=float(E.second_degree_zonal_harmonic), U0=float(E.normal_gravity_potential),
+                             day=float(E.sidereal_day) if w > 0 else np.nan, mass=float(E.mass)))
+    if ctx.returned(more, clause="no-exception[derived constants]", route=r):
+        d = more.value
+        e2 = (a * a - b * b) / (a * a)
+        es = np.sqrt((a * a - b * b) / (b * b))
+        cond = 1e-14 + (4e-16 / f if f > 0 else 0.0) * 0      # (identities below are written so that nothing cancels)
+        ctx.le("aspect ratio = b/a", abs(d["ar"] - b / a), 2e-16 + cond, route=r)
+        ctx.le("polar radius of curvature c = a^2/b", abs(d["c"] - a * a / b) / a, 1e-15, route=r)
+        ctx.le("arithmetic mean radius = (2a + b)/3", abs(d["R1"] - (2 * a + b) / 3) / a, 1e-15, route=r)
+        ctx.le("equivolumetric radius^3 = a^2 b", abs(d["R3"] ** 3 - a * a * b) / (a * a * b), 1e-14, route=r)
+        if e2 > 0:
+            e = np.sqrt(e2)
+            RA = np.sqrt(0.5 * a * a * (1 + (1 - e2) / e * np.arctanh(e)))      # exact authalic radius; the library sums a series in e'^2 up to e'^10
+            ctx.le("authalic radius = sqrt(area/4pi) (to the accuracy of the library's series)", abs(d["R2"] - RA) / a, 1e-13 + 0.6 * es ** 12, {"R2": d["R2"], "exact": RA, "f": f}, route=r)
+        ctx.le("N(0) = a and M(0) = b^2/a", max(abs(d["N0"] - a), abs(d["M0"] - b * b / a)) / a, 1e-15, route=r)
+        ctx.le("N(pi/2) = M(pi/2) = a^2/b", max(abs(d["Np"] - a * a / b), abs(d["Mp"] - a * a / b)) / a, 1e-14, route=r)
+        s2 = np.sin(0.7) ** 2
+        ctx.le("N(lat) = a / sqrt(1 - e^2 sin^2 lat), M(lat) = a (1 - e^2) / (1 - e^2 sin^2 lat)^(3/2), N symmetric in lat",
+               max(abs(d["N1"] - a / np.sqrt(1 - e2 * s2)), abs(d["M1"] - a * (1 - e2) / (1 - e2 * s2) ** 1.5), abs(d["N1"] - d["N1n"])) / a, 1e-14, route=r)
+        if es > 0:
+            q0 = 0.5 * ((1 + 3 / es ** 2) * np.arctan(es) - 3 / es)
+            # q0 ~ 2 e'^3/15 is a difference of terms of size 3/e': it carries a relative rounding noise of ~90 eps/e'^4, which the factor
+            # 2 m e'/(15 q0) ~ m/e'^2 turns into ~90 eps m/e'^6 of J2: judged only where that is small, with that conditioning as tolerance
+            noise = 90 * 2.2e-16 * m / es ** 6
+            if noise < 1e-9:
+                ctx.le("J2 = e^2/3 (1 - 2 m e'/(15 q0))", abs(d["J2"] - e2 / 3 * (1 - 2 * m * es / (15 * q0))) / max(e2, 1e-300), 1e-13 + 5 * noise, {"J2": d["J2"], "f": f}, route=r)
+            else:
+                ctx.note("J2 not judged: its closed form is rounding noise for this nearly spherical body")
+            ctx.le("normalised C20 = -J2/sqrt(5)", abs(d["C20"] + d["J2"] / np.sqrt(5.0)), 1e-18 + 1e-15 * abs(d["J2"]), route=r)
+            U0 = GM * np.arctan(es) / np.sqrt(a * a - b * b) + w * w * a * a / 3
+            ctx.le("U0 = GM/E atan(e') + w^2 a^2/3", abs(d["U0"] - U0) / U0, 1e-13 + 1e-15 / es ** 2, route=r)
+        if w > 0:
+            ctx.le("sidereal day = 2 pi / w", abs(d["day"] - 2 * np.pi / w) * w, 1e-14, route=r)
+        if type(E).__name__ == "ReferenceEllipsoid":      # (the WGS subclass defines its own mass with the 1986 value of G)
+            ctx.le("mass = GM / G (CODATA 2018)", abs(d["mass"] - GM / 6.67430e-11) / (GM / 6.67430e-11), 1e-14, route=r)
     ge, gp = v["ge"], v["gp"]
     r = "ReferenceEllipsoid/pizzetti"
     ok = ctx.ok("ge and gp are finite positive accelerations", np.isfinite(ge) and np.isfinite(gp) and ge > 0 and gp > 0, {"ge": ge, "gp": gp, "GM/a^2": g0, "f": f}, route=r)
@@ -96,6 +137,21 @@ def judge(ctx, E, a, f, GM, w, lats, hs):
         ctx.ok("normal gravity decreases with height (0 .. 0.5 % of a)", all(x > y for x, y in zip(seq[:-1], seq[1:])), {"lat": lat, "heights": hs, "g": seq}, route=r)
 
 
+def check_wgs_with_parameters(ctx, a, f, GM, w):
+    """The WGS class accepts the four defining parameters too: it must describe the same ellipsoid as ReferenceEllipsoid(a, f, GM, w),
+    also when one of them is 0 (a sphere: f = 0)."""
+    from ahrs.utils.geodesy import ReferenceEllipsoid
+    from ahrs.utils.wgs84 import WGS
+    r = "WGS"
+    out = call(lambda: [(float(E.a), float(E.f), float(E.b), float(E.equatorial_normal_gravity), float(E.polar_normal_gravity), float(E.normal_gravity(37.0, 0.001 * a)))
+                        for E in (WGS(a, f, GM, w), ReferenceEllipsoid(a, f, GM, w))])
+    if ctx.returned(out, clause="no-exception[WGS(a, f, GM, w)]", route=r):
+        W_, R_ = (np.array(x) for x in out.value)
+        ctx.le("WGS(a, f, GM, w) holds the parameters it was given", max(abs(W_[0] - a) / a, abs(W_[1] - f)), 0.0, {"a": a, "f": f, "held": W_[:2]}, route=r)
+        ctx.le("WGS(a, f, GM, w) and ReferenceEllipsoid(a, f, GM, w) agree on b, ge, gp and normal gravity", float(np.max(np.abs(W_[2:] - R_[2:]) / np.abs(R_[2:]))), 1e-15,
+               {"WGS": W_, "ReferenceEllipsoid": R_, "f": f}, route=r)
+
+
 def check(case, ctx):
     from ahrs.utils.geodesy import ReferenceEllipsoid
     import ahrs.common.constants as C
@@ -105,6 +161,7 @@ def check(case, ctx):
         out = call(lambda: ReferenceEllipsoid(a, f, GM, w))
         if ctx.returned(out, route="ReferenceEllipsoid/constants"):
             judge(ctx, out.value, a, f, GM, w, p["lats"], p["hs"])
+        check_wgs_with_parameters(ctx, a, f, GM, w)
     elif case.route == "body":
         nm = p["body"]
         a, b, GM, w = (float(getattr(C, nm + s)) for s in ("_EQUATOR_RADIUS", "_POLAR_RADIUS", "_GM", "_ROTATION"))
@@ -113,6 +170,7 @@ def check(case, ctx):
         if ctx.returned(out, route="ReferenceEllipsoid/constants"):
             judge(ctx, out.value, a, f, GM, w, p["lats"], [a * h for h in p["hs"]])
             ctx.note("body " + nm + (" (f = 0)" if f == 0 else ""))
+        check_wgs_with_parameters(ctx, a, f, GM, w)
     else:
         from ahrs.utils.wgs84 import WGS
         out = call(lambda: WGS())
